@@ -3601,3 +3601,110 @@ mod tests {
         }
     }
 }
+
+/// Verification hooks: public wrappers of the crate-private subscription table API.
+#[cfg(rs_matter_verif)]
+impl<const N: usize> Subscriptions<N> {
+    pub fn verif_notify_attr_changed(&self, endpoint_id: EndptId, cluster_id: ClusterId, attr_id: AttrId) {
+        self.notify_attr_changed(endpoint_id, cluster_id, attr_id)
+    }
+
+    pub fn verif_notify_cluster_changed(&self, endpoint_id: EndptId, cluster_id: ClusterId) {
+        self.notify_cluster_changed(endpoint_id, cluster_id)
+    }
+
+    pub fn verif_notify_endpoint_changed(&self, endpoint_id: EndptId) {
+        self.notify_endpoint_changed(endpoint_id)
+    }
+
+    pub fn verif_notify_all_changed(&self) {
+        self.notify_all_changed()
+    }
+
+    #[allow(clippy::too_many_arguments)]
+    pub fn verif_add<'a, 's, B>(
+        &'s self,
+        now: Instant,
+        fabric_idx: NonZeroU8,
+        peer_node_id: u64,
+        min_int_secs: u16,
+        max_int_secs: u16,
+        event_numbers_watermark: EventNumber,
+        buffer: B::Buffer<'a>,
+        buffers: &'s SubscriptionsBuffers<'a, B, N>,
+    ) -> Option<ReportContext<'a, 's, B, N>>
+    where
+        B: Buffers<IMBuffer> + 'a,
+    {
+        self.add(
+            now,
+            fabric_idx,
+            peer_node_id,
+            min_int_secs,
+            max_int_secs,
+            event_numbers_watermark,
+            buffer,
+            buffers,
+        )
+    }
+
+    pub fn verif_report<'a, 's, B>(
+        &'s self,
+        now: Instant,
+        event_numbers_watermark: EventNumber,
+        buffers: &'s SubscriptionsBuffers<'a, B, N>,
+    ) -> Option<ReportContext<'a, 's, B, N>>
+    where
+        B: Buffers<IMBuffer> + 'a,
+    {
+        self.report(now, event_numbers_watermark, buffers)
+    }
+
+    pub fn verif_next_report_at<'a, B>(
+        &self,
+        event_numbers_watermark: EventNumber,
+        buffers: &SubscriptionsBuffers<'a, B, N>,
+    ) -> Instant
+    where
+        B: Buffers<IMBuffer> + 'a,
+    {
+        self.next_report_at(event_numbers_watermark, buffers)
+    }
+
+    pub fn verif_purge_reported_changes(&self) {
+        self.purge_reported_changes()
+    }
+
+    pub fn verif_remove<B, F>(&self, buffers: &SubscriptionsBuffers<'_, B, N>, f: F) -> bool
+    where
+        B: Buffers<IMBuffer>,
+        F: FnMut(&Subscription) -> Option<&'static str>,
+    {
+        self.remove(buffers, f)
+    }
+
+    /// `(subscription id, max_seen_attr_change_id, max_seen_event_number, fail_count)` of every
+    /// subscription in the table (excluding an in-flight one), plus the change-table watermark and size.
+    pub fn verif_snapshot(&self) -> (crate::verif::Vec<(u32, u64, u64, u8)>, u64, usize, usize) {
+        self.state.lock(|state| {
+            let state = state.borrow();
+            (
+                state
+                    .subscriptions
+                    .iter()
+                    .map(|s| {
+                        (
+                            s.ids.id,
+                            s.max_seen_attr_change_id,
+                            s.max_seen_event_number,
+                            s.fail_count,
+                        )
+                    })
+                    .collect(),
+                state.changed_attrs.watermark(),
+                state.changed_attrs.entries.len(),
+                state.subscriptions_count,
+            )
+        })
+    }
+}
